@@ -21,7 +21,7 @@ LAYOUTS = ['blank-lines', 'comment-line', 'trailing-comment', 'block', 'block-he
            'no-final-newline', 'block-member-continuation', 'dedent-two-levels']
 REQUIRED_BUCKETS = (['layout:' + l for l in LAYOUTS] + ['stmt:bind', 'stmt:macro', 'stmt:scoped-macro', 'stmt:import', 'stmt:import-as', 'stmt:from', 'stmt:from-as',
                     'stmt:include', 'value:reference', 'value:macro', 'neg:inner-whitespace', 'neg:empty-component', 'neg:misplaced-separator', 'neg:in-reference',
-                    'neg:in-block-header', 'renderings:3+'])
+                    'neg:in-block-header', 'neg:continuation-inside-name', 'renderings:3+', 'stmt:keyword-named'])
 ORACLE_COUNTERS = ['oracle_evals', 'streams_compared', 'renderings_parsed', 'negatives_rejected']
 
 NEGATIVES = [
@@ -34,13 +34,16 @@ NEGATIVES = [
     ('neg:in-reference', 'c3f.x = @a /c3g'), ('neg:in-reference', 'c3f.x = @a/ c3g()'), ('neg:in-reference', 'c3f.x = %a/ m'), ('neg:in-reference', 'c3f.x = %a /m'),
     ('neg:in-reference', 'c3f.x = @a//c3g'), ('neg:in-reference', 'c3f.x = @/c3g'), ('neg:in-reference', 'c3f.x = @c3g/'), ('neg:in-reference', 'c3f.x = @c3. c3g'),
     ('neg:in-reference', 'c3f.x = [1, @a /c3g()]'), ('neg:in-reference', 'c3f.x = %m..n'), ('neg:in-reference', 'c3f.x = @c3g.'),
+    ('neg:continuation-inside-name', 'outer/\\\n      c3f.x = 1'), ('neg:continuation-inside-name', 'c3f.\\\n    x = 1'), ('neg:continuation-inside-name', 'a/b\\\n   /c3f.x = 1'),
+    ('neg:continuation-inside-name', 'c3f.x = @a/\\\n           c3g()'), ('neg:continuation-inside-name', 'c3f.x = %a/\\\n           m'),
+    ('neg:continuation-inside-name', 'c3\\\n  .m.c3f.x = 1'),
     ('neg:in-block-header', 'a /c3f:\n  x = 1\n'), ('neg:in-block-header', 'a//c3f:\n  x = 1\n'), ('neg:in-block-header', 'c3. m.c3f:\n  x = 1\n'),
     ('neg:in-block-header', 'a/c3f.:\n  x = 1\n'), ('neg:in-block-header', '/c3f:\n  x = 1\n'),
 ]
 
 
 def setup(ctx):
-  for name in ('c3f', 'c3g', 'c3h'):
+  for name in ('c3f', 'c3g', 'c3h', 'include'):
     probes.build({'shape': 'fn', 'api': 'external', 'name': name, 'module': 'c3.m', 'pos': [], 'dflt': [['x', 0], ['y', 0], ['zz', 0], ['w_1', 0]],
                   'varargs': False, 'kwonly': [], 'varkw': False})
 
@@ -55,16 +58,21 @@ def gen_stmt(rng):
       v = ['ref', rng.choice(['c3g', 'a/c3g', 'a/b/c3h', 'c3.m.c3g', 'x.y/c3g', 'm.c3h']), rng.random() < 0.6]
     else:
       v = ['macro', rng.choice(['c3mac', 'a/c3mac', 'a.b/mm', 'gin.REQUIRED_not'])]
-    return ['bind', rng.choice(['', '', 'a', 'a/b', 'train', 'x/y/z']), rng.choice(['c3f', 'c3g', 'c3.m.c3f', 'm.c3h']), rng.choice(['x', 'y', 'zz', 'w_1']), v]
+    return ['bind', rng.choice(['', '', 'a', 'a/b', 'train', 'x/y/z', 'import', 'from/include']), rng.choice(['c3f', 'c3g', 'c3.m.c3f', 'm.c3h', 'include']),
+            rng.choice(['x', 'y', 'zz', 'w_1']), v]
   if r < 0.74:
     v = ['lit', gen.gen_value(rng, depth=rng.choice([0, 1, 2]))] if rng.random() < 0.8 else ['ref', 'c3g', True]
-    return ['macro', rng.choice(['c3mac', 'c3mac2', 'a/c3mac', 'a/b/mm', 'UPPER']), v]
+    return ['macro', rng.choice(['c3mac', 'c3mac2', 'a/c3mac', 'a/b/mm', 'UPPER', 'from', 'import', 'include', 'a/include']), v]
   if r < 0.94:
     form = rng.choice(['import', 'import-as', 'from', 'from-as'])
     mod = rng.choice(['os', 'os.path', 'json', 'collections.abc', 'json.decoder', 'string'])
     if form in ('from', 'from-as') and '.' not in mod:
       mod = {'os': 'os.path', 'json': 'json.decoder', 'string': 'collections.abc'}[mod]
-    return ['import', form, mod, rng.choice(['al', 'x1', '_p']) if form.endswith('as') else None]
+    alias = None
+    if form.endswith('as'):
+      # aliases equal to a component of the module path are still aliases (`import os.path as os` binds the submodule)
+      alias = rng.choice(['al', 'x1', '_p', mod.split('.')[0], mod.split('.')[-1]])
+    return ['import', form, mod, alias]
   return ['include', rng.choice(['a.gin', 'dir/b.gin', 'pkg.sub/c.gin', "it's.gin"])]
 
 
@@ -296,6 +304,8 @@ def run_case(ctx, case):
   stmts = case['stmts']
   kinds = []
   for st in stmts:
+    if (st[0] == 'bind' and (st[2] == 'include' or st[1] in ('import', 'from/include'))) or (st[0] == 'macro' and st[1].split('/')[-1] in ('from', 'import', 'include')):
+      ctx.bucket('stmt:keyword-named')
     if st[0] == 'bind':
       ctx.bucket('stmt:bind')
       ctx.bucket({'ref': 'value:reference', 'macro': 'value:macro'}.get(st[4][0], 'value:literal'))
@@ -356,7 +366,7 @@ def run_case(ctx, case):
     exp = {}
     for s in stmts:
       if s[0] == 'bind':
-        sel = {'c3f': 'c3.m.c3f', 'c3g': 'c3.m.c3g', 'c3.m.c3f': 'c3.m.c3f', 'm.c3h': 'c3.m.c3h'}[s[2]]
+        sel = {'c3f': 'c3.m.c3f', 'c3g': 'c3.m.c3g', 'c3.m.c3f': 'c3.m.c3f', 'm.c3h': 'c3.m.c3h', 'include': 'c3.m.include'}[s[2]]
         exp.setdefault((s[1], sel), {})[s[3]] = store_canon(s[4])
       elif s[0] == 'macro':
         exp.setdefault((s[1], 'gin.macro'), {})['value'] = store_canon(s[2])
